@@ -460,7 +460,7 @@ func formatLayers(tier string) []Layer {
 		var base []*Opnd
 		k := 3
 		if thorough {
-			k = 4
+			k = 5
 		}
 		for _, cf := range DCoefs(k) {
 			base = append(base, mkInt64(cf, 0, 34, 0))
